@@ -34,6 +34,9 @@ type File struct {
 	Services  []*Service
 	Extends   []*Extend
 	Raw       string // verbatim content (vendored file, not modelled); such files are import-only
+	// FeatureLines are file-level editions features, each rendered as `option <line>;` before the other
+	// options (no anchors: nothing points at them).
+	FeatureLines []string
 }
 
 // Path is the module-relative path.
@@ -351,6 +354,12 @@ func (s *Spec) renderFile(ix *index, w *writer, f *File) {
 		w.s("\"" + importPath(im) + "\";\n")
 	}
 	if len(f.Imports) > 0 {
+		w.s("\n")
+	}
+	for _, line := range f.FeatureLines {
+		w.s("option " + line + ";\n")
+	}
+	if len(f.FeatureLines) > 0 {
 		w.s("\n")
 	}
 	for _, o := range f.Options {
